@@ -20,6 +20,9 @@ def oracle(trace, session):
             return "C08 the client's HLS reply is not security-control || counter || GMAC(sc || AK || meter challenge) under its nonce"
         if op[0] == "recv" and op[1][0] == "aare" and t["result"].startswith("ok") and len(op) > 2 and not op[2]:
             sent_challenge = op[1][4]                 # the challenge as the meter put it on the wire
+            # what the meter SENT (not what the library's decoder made of it): an accepted AARE naming HLS-GMAC starts the exchange
+            if op[1][1] == "0" and op[1][2] == "5" and "AWAITING_ASSOCIATION_RESPONSE" in t["before"] and "st=READY" in t["after"]:
+                return "C08 the association is READY straight after an AARE that selects HLS-GMAC"
         if op[0] == "hls" and t["result"].startswith("ok") and sent_challenge not in (None, "none"):
             over = t["result"].split(",")[-1]
             if over != sent_challenge:
@@ -50,7 +53,7 @@ class C08(fw.Prop):
             "bytes), wrong challenge, wrong key, wrong authentication key, wrong title, counter field altered, every non-success status with and without a "
             "valid proof, ACTION responses without data / with error; all orders of the four steps (service requests tried in the HLS sub-states); each "
             "followed by a GET; every step compared with the model; the harness also verifies the client's reply against a real GMAC; "
-            "a second association on the same connection with another title / challenge answered with the first association's proof; meter challenges ending in blanks / zero bytes; answers whose counter field and tag disagree (zero field, transport counter); the reply must be over the challenge as sent; non-trivial = distinct history")
+            "a second association on the same connection with another title / challenge answered with the first association's proof; meter challenges ending in blanks / zero bytes; answers whose counter field and tag disagree (zero field, transport counter); the reply must be over the challenge as sent; AAREs whose responder-acse-requirements bit string is written with 0 / 5 / 6 unused bits; oracle on what the meter sent: READY straight after an AARE selecting HLS-GMAC is a violation; non-trivial = distinct history")
     trusted_base = ["the symbolic-MAC abstraction (ideal MAC, DESIGN.md §5b)", "extract.py (HLS rows of the transition table)"]
     assumptions = ["the proof is the octet string security-control || counter || 12-byte MAC; other layouts are 'malformed'"]
     technique = "Lean 4 proof over the model with an ideal MAC: form of the client's reply, no service request in the HLS sub-states, ready ⇔ valid meter answer, otherwise not associated; differential correspondence with real GMAC on the harness side incl. every single-bit alteration"
@@ -120,6 +123,18 @@ class C08(fw.Prop):
 
     def cases(self, rng, tier, deep):
         yield from self.history_cases(rng, deep)
+        # the AARE's responder-acse-requirements written with no / six unused bits instead of seven (same bit string): HLS-GMAC is
+        # selected all the same, nothing can be sent before the meter's answer
+        for alt in ("0080", "0680", "0580"):
+            for suite, klen in ((0, 16), (2, 32)):
+                ek, ak = (1, klen), (2, klen)
+                cfg = cl.Cfg(ek=ek, ak=ak, suite=suite, auth=5, cic=4)
+                p = PathK(cfg, ek, ak)
+                aare = p.resp("aare", (0, 5))
+                aare[1] = aare[1] + [alt]
+                yield self.make_case({"cfg": cfg.to_json(), "ops": [["send", "aarq", 1], aare, ["send", "getReq", 1], ["send", "setReq", 1], ["hls"],
+                                                                   ["send", "actReq", 1], self.answer(p, p.valid_proof(9), 0, "valid-answer"),
+                                                                   ["send", "getReq", 1]], "tag": "acse-requirements-encoding"})
         for suite, klen in ((0, 16), (1, 16), (2, 32)):
             for chal_len in (8, 9, 32, 63, 64):
                 for cic in ((0, 2 ** 32 - 3) if chal_len == 8 else (rng.choice([0, 5, 1000]),)):
